@@ -32,7 +32,8 @@ def rtcases(draw, maxdim=64):
     dtype = draw(st.sampled_from(["uint16", "uint32", "float32"]))
     cutpos = draw(st.sampled_from(["zero", "between", "at", "below"]))
     detmask = draw(st.booleans())
-    return dict(spec=spec, maskkind=maskkind, dtype=dtype, cutpos=cutpos, detmask=detmask)
+    menc = draw(st.sampled_from(["bool", "bool", "int8_01", "int8_02", "uint8_255", "int32_labels"]))
+    return dict(spec=spec, maskkind=maskkind, dtype=dtype, cutpos=cutpos, detmask=detmask, menc=menc)
 
 
 def build_mask(case):
@@ -90,7 +91,19 @@ def check_rt(case, rec=None):
     exp_dense = np.where(mask, data, 0).astype(data.dtype)
     ei, ej = np.nonzero(mask)
     # ---- from_data_mask
-    ok, fr = guard(sparseframe.from_data_mask, mask, data, {"k": 1})
+    # the mask as callers encode it: boolean, 0/1, 0/2, 0/255 or a label image (anything > 0 selects)
+    enc = case.get("menc", "bool")
+    if enc == "bool":
+        menc = mask
+    elif enc == "int8_01":
+        menc = mask.astype(np.int8)
+    elif enc == "int8_02":
+        menc = mask.astype(np.int8) * 2
+    elif enc == "uint8_255":
+        menc = mask.astype(np.uint8) * 255
+    else:
+        menc = np.where(mask, 1 + (np.arange(mask.size).reshape(mask.shape) % 5), 0).astype(np.int32)
+    ok, fr = guard(sparseframe.from_data_mask, menc, data, {"k": 1})
     if not ok:
         return [exc_failure("from_data_mask", fr)]
 
@@ -198,7 +211,8 @@ def check_rt(case, rec=None):
                 frame_ok(sub, "sparse_frame.mask", m2, np.where(m2, data, 0).astype(data.dtype))
     if rec is not None:
         rows = len(np.unique(ei))
-        rec.case(case, len(ei) >= 2 and rows >= 2, ["rt:" + case["dtype"], "mask:" + case["maskkind"]])
+        rec.case(case, len(ei) >= 2 and rows >= 2, ["rt:" + case["dtype"], "mask:" + case["maskkind"],
+                                                     "maskenc:" + case.get("menc", "bool")])
     return fails
 
 
